@@ -112,9 +112,31 @@ def run_real(sc: Scenario, mode, workdir, serial=True, cpus=2, rids=None, qids=N
         for n in pool_names:
             setattr(wc, n, serial_imap)
     err = None
+    coordinator_rows = []
     try:
         exts = [SeedCatcher(seedpath)] + list(extensions or [])
-        Program(args, exts).run()
+        prog = Program(args, exts)
+        # what the coordinator hands to `AlignmentResults.create` (before the per-query filter of `Program.run`)
+        wobj = getattr(prog, "workflowCoordinator", None)
+        if wobj is not None and hasattr(wobj, "execute"):
+            orig_execute = wobj.execute
+
+            def _execute(*a, **k):
+                rows = orig_execute(*a, **k)
+                if isinstance(rows, list):
+                    for r in rows:
+                        try:
+                            coordinator_rows.append((int(r.queryId), int(r.referenceId), bool(r.reverseStrand), "{:.2f}".format(r.confidence),
+                                                     bool(getattr(r, "alignedRest", False)),
+                                                     ",".join(f"{p.reference.siteId}:{p.query.siteId}" for p in r.alignedPairs)))
+                        except Exception:  # noqa
+                            pass
+                return rows
+            try:
+                wobj.execute = _execute
+            except Exception:  # noqa
+                pass
+        prog.run()
     except BaseException as e:  # noqa
         if isinstance(e, (KeyboardInterrupt, MemoryError)) or getattr(e, "harness_interrupt", False):
             raise
@@ -134,7 +156,8 @@ def run_real(sc: Scenario, mode, workdir, serial=True, cpus=2, rids=None, qids=N
             headers[n] = [l.rstrip("\n") for l in open(p) if l.startswith("#")]
     seeds = [json.loads(l) for l in open(seedpath)] if os.path.exists(seedpath) else []
     return {"files": out, "seeds": seeds, "error": err, "paths": {0: opath, 1: f"{base}_1{ext}", 2: f"{base}_2{ext}"},
-            "argv": argv, "headers": headers, "inputs": (os.path.abspath(rpath), os.path.abspath(qpath))}
+            "argv": argv, "headers": headers, "inputs": (os.path.abspath(rpath), os.path.abspath(qpath)),
+            "coordinator_rows": coordinator_rows}
 
 
 def seeds_to_table(seeds):
@@ -277,6 +300,22 @@ def gen_scenario(rng: random.Random, kind=None) -> Scenario:
             Q = Q1 + [base + q for q in Q2]
         elif kind == "chimeric" and r < 0.6:
             Q = chimeric(rng, R)
+        elif kind == "split_join" and r < 0.7:
+            # head = a window with an indel in its middle (two segments from two secondary peaks), tail = the window that
+            # follows 20-60 kb further on the SAME reference and strand: the first pass aligns the head with two segments,
+            # the second pass the tail, and the two records are joinable (the join reads only the first segment of each)
+            n = len(R)
+            ka, kb = rng.randrange(16, 24), rng.randrange(8, 12)
+            ia = rng.randrange(0, max(1, n - ka - kb - 8))
+            A = [p - R[ia] for p in R[ia:ia + ka]]
+            cut = rng.choice([ka // 4, ka // 4, rng.randrange(ka // 3, 2 * ka // 3), 3 * ka // 4])   # a short first (or last) segment: the join keeps only that one
+            d = rng.choice([2500, 4000, 6000, -2500])
+            A = [p if j < cut else p + d for j, p in enumerate(A)]
+            A = sorted(set(max(0, p) for p in A))
+            skip = rng.randrange(2, 7)
+            ib = min(n - kb, ia + ka + skip)
+            B = [p - R[ia] + d for p in R[ib:ib + kb]]
+            Q = sorted(set(A + [p for p in B if p > A[-1]]))
         elif kind == "rest_outscores" and r < 0.7:
             # a long, loosely matching head (every label 500-650 bp off: it wins the seeding, but each pair scores low)
             # followed by a shorter exact tail from elsewhere: with -p 1 the first pass can only find the head, and the
@@ -702,6 +741,21 @@ def gen_c11(rng: random.Random, nq=6):
     if rng.random() < 0.5:
         extra["-sj"] = rng.choice([1, 0.5, 0.1, 0])
         extra["-ss"] = rng.choice([0, 1])
+    if rng.random() < 0.5:
+        # short molecules (3-6 labels) under a raised secondary threshold: candidates whose secondary correlation has NO
+        # peak above the threshold (they must simply be dropped, on either strand)
+        extra["-pt"] = rng.choice([27, 40, 40, 60])
+        used = {q[0] for q in queries}
+        for qi in rng.sample([x for x in range(1, 90) if x not in used], rng.randrange(1, 4)):
+            R = rng.choice(refs)[2]
+            k = rng.randrange(3, 7)
+            i = rng.randrange(0, len(R) - k)
+            win = [p - R[i] for p in R[i:i + k]]
+            if rng.random() < 0.5:
+                win = gens.mirror(win)
+                win = [p - win[0] for p in win]
+            queries.append((qi, win[-1] + 1 + rng.choice([0, unit]), win))
+        queries.sort()
     sc = Scenario(refs, queries, P, extra, None, "c11")
     # the mirror image of the WHOLE molecule (its unlabelled tail becomes an unlabelled head)
     mir = Scenario(refs, [(qi, ln, [ln - 1 - p for p in reversed(ps)]) for qi, ln, ps in queries], P, extra, None, "c11-mirror")
